@@ -94,6 +94,10 @@ def _client_prog(conn, scen, log, opts, session=None):
     log.append(("write", len(MSG1)))
     for r in _read_n(conn, len(MSG2), log, "read", multi):
         yield r
+    if opts.get("keyupdate") and tuple(conn.version) >= (3, 4):
+        from tlslite.constants import KeyUpdateMessageType as KU
+        for r in conn.send_keyupdate_request(KU.update_requested):
+            yield r
     for r in _write_parts(conn, MSG3, multi):
         yield r
     log.append(("write", len(MSG3)))
